@@ -115,6 +115,8 @@ structure St where
   thr : Tid → Thread := fun _ => {}
   /-- worker threads are `w 0 … w (n-1)` -/
   n : Nat := 0
+  /-- transactions are `0 … nTx-1`; committer threads `c 0 … c (nTx-1)` -/
+  nTx : Nat := 0
   maxSize : Int := -1
   /-- bbolt discipline: a transaction's first writing access takes the (single) database write lock,
   released when its `With` goroutines are joined (before `Commit`) -/
@@ -175,7 +177,7 @@ def Obj.free (o : Obj) : Bool := o.readers.isEmpty && o.writer.isNone
 def enabled (s : St) (t : Tid) : Bool :=
   let th := s.thr t
   let T := th.tx
-  (match t with | .w i => decide (i < s.n) | .c T' => T' == T) &&
+  (match t with | .w i => decide (i < s.n) | .c T' => T' == T && decide (T' < s.nTx)) &&
   match th.pc with
   | .idle =>
     match th.todo with
@@ -193,13 +195,11 @@ def enabled (s : St) (t : Tid) : Bool :=
 def St.alloc (s : St) (name : Name) : St × ObjId :=
   ({ s with objs := upd s.objs s.nObj { name := name }, nObj := s.nObj + 1 }, s.nObj)
 
-def step (s : St) (t : Tid) (c : Choice) : St :=
-  let th := s.thr t
-  let T := th.tx
-  let tx := s.txs T
-  let a := th.acc
-  match th.pc with
+set_option linter.unusedVariables false in
+/-- the action of thread `t` parked at program counter `pc` -/
+def stepAt (s : St) (t : Tid) (c : Choice) : PC → St
   | .idle =>
+    let th := s.thr t; let T := th.tx; let tx := s.txs T; let a := th.acc
     match th.todo with
     | [] => s
     | a :: rest =>
@@ -207,121 +207,185 @@ def step (s : St) (t : Tid) (c : Choice) : St :=
       if tx.failed then s.setThr t { th with todo := rest, acc := a, defers := [] }
       else s.setThr t { th with todo := rest, acc := a, defers := [],
                                 pc := if s.v.txFirst && !a.ro then .xPreTxLock else .mgrLock }
-  | .xPreTxLock => (s.setTx T { tx with mu := some t }).setThr t { th with pc := .mgrLock }
-  | .mgrLock => ({ s with mgr := some t }).setThr t { th with pc := .lookup }
+  | .xPreTxLock =>
+    let th := s.thr t; let T := th.tx; let tx := s.txs T; let a := th.acc
+    (s.setTx T { tx with mu := some t }).setThr t { th with pc := .mgrLock }
+  | .mgrLock =>
+    let th := s.thr t; let T := th.tx; let tx := s.txs T; let a := th.acc
+    ({ s with mgr := some t }).setThr t { th with pc := .lookup }
   | .lookup =>
+    let th := s.thr t; let T := th.tx; let tx := s.txs T; let a := th.acc
     match s.map a.name with
     | some o => s.setThr t { th with existing := o, use := o, pc := .exMgrUnlock }
     | none => s.setThr t { th with pc := .nCreate }
   | .exMgrUnlock =>
+    let th := s.thr t; let T := th.tx; let tx := s.txs T; let a := th.acc
     ({ s with mgr := none }).setThr t
       { th with pc := if a.ro then .rTxLock else if s.v.txFirst then .xCheckWritten else .xTxLock }
   -- existing, read-only
-  | .rTxLock => (s.setTx T { tx with mu := some t }).setThr t { th with pc := .rCheckWritten }
+  | .rTxLock =>
+    let th := s.thr t; let T := th.tx; let tx := s.txs T; let a := th.acc
+    (s.setTx T { tx with mu := some t }).setThr t { th with pc := .rCheckWritten }
   | .rCheckWritten =>
+    let th := s.thr t; let T := th.tx; let tx := s.txs T; let a := th.acc
     match aget tx.written a.name with
     | some o' => s.setThr t { th with ok := true, use := if s.v.useOwn then o' else th.use, pc := .rTxUnlock }
     | none => s.setThr t { th with ok := false, pc := .rTxUnlock }
   | .rTxUnlock =>
+    let th := s.thr t; let T := th.tx; let tx := s.txs T; let a := th.acc
     (s.setTx T { tx with mu := none }).setThr t { th with pc := if th.ok then .chkScrapped else .rTryRLock }
   | .rTryRLock =>
+    let th := s.thr t; let T := th.tx; let tx := s.txs T; let a := th.acc
     let ob := s.objs th.existing
     if ob.writer.isNone && !c.tryFail then
       (s.setObj th.existing { ob with readers := t :: ob.readers }).setThr t
         { th with defers := .runlock th.existing :: th.defers, pc := .chkScrapped }
     else s.setThr t { th with pc := .rColdCreate }
   | .rColdCreate =>
+    let th := s.thr t; let T := th.tx; let tx := s.txs T; let a := th.acc
     if a.crOk then
       let (s, o) := s.alloc a.name
       s.setThr t { th with use := o, pc := .chkScrapped }
     else (s.setTx T { tx with failed := true }).setThr t th.doReturn
   -- existing, writing
-  | .xTxLock => (s.setTx T { tx with mu := some t }).setThr t { th with pc := .xCheckWritten }
+  | .xTxLock =>
+    let th := s.thr t; let T := th.tx; let tx := s.txs T; let a := th.acc
+    (s.setTx T { tx with mu := some t }).setThr t { th with pc := .xCheckWritten }
   | .xCheckWritten =>
+    let th := s.thr t; let T := th.tx; let tx := s.txs T; let a := th.acc
     match aget tx.written a.name with
     | some o' => s.setThr t { th with ok := true, use := if s.v.useOwn then o' else th.use, pc := .xTxUnlock }
     | none => s.setThr t { th with ok := false, pc := .xObjLock }
   | .xObjLock =>
+    let th := s.thr t; let T := th.tx; let tx := s.txs T; let a := th.acc
     (s.setObj th.existing { s.objs th.existing with writer := some T }).setThr t { th with pc := .xRegister }
   | .xRegister =>
+    let th := s.thr t; let T := th.tx; let tx := s.txs T; let a := th.acc
     (s.setTx T { tx with written := aput tx.written a.name th.existing }).setThr t { th with pc := .xTxUnlock }
-  | .xTxUnlock => (s.setTx T { tx with mu := none }).setThr t { th with pc := .chkScrapped }
+  | .xTxUnlock =>
+    let th := s.thr t; let T := th.tx; let tx := s.txs T; let a := th.acc
+    (s.setTx T { tx with mu := none }).setThr t { th with pc := .chkScrapped }
   -- common tail
   | .chkScrapped =>
+    let th := s.thr t; let T := th.tx; let tx := s.txs T; let a := th.acc
     if (s.objs th.use).scrapped then s.setThr t { th with pc := .sCreate }
     else s.setThr t { th with pc := .callF,
                               defers := if th.use = th.existing then pushPrune s.v th.defers else th.defers }
   | .sCreate =>
+    let th := s.thr t; let T := th.tx; let tx := s.txs T; let a := th.acc
     if a.crOk then
       let (s, o) := s.alloc a.name
       s.setThr t { th with use := o, pc := .callF }
     else (s.setTx T { tx with failed := true }).setThr t th.doReturn
   | .callF =>
+    let th := s.thr t; let T := th.tx; let tx := s.txs T; let a := th.acc
     let ob := s.objs th.use
     let s := if a.ro then s else s.setObj th.use { ob with wown := if ob.wown.contains T then ob.wown else T :: ob.wown }
     s.setThr t { th with pc := .inF }
-  | .inF => if a.cbOk then s.setThr t th.doReturn else s.setThr t { th with pc := .fScrap }
+  | .inF =>
+    let th := s.thr t; let T := th.tx; let tx := s.txs T; let a := th.acc
+    if a.cbOk then s.setThr t th.doReturn else s.setThr t { th with pc := .fScrap }
   | .fScrap =>
+    let th := s.thr t; let T := th.tx; let tx := s.txs T; let a := th.acc
     let ob := s.objs th.use
     ((s.setTx T { tx with failed := true }).setObj th.use
       { ob with scrapped := true, dirty := if ob.writer = some T then some T else ob.dirty }).setThr t
       { th with pc := .fMgrLock }
-  | .fMgrLock => ({ s with mgr := some t }).setThr t { th with pc := .fDelete }
-  | .fDelete => ({ s with map := upd s.map a.name none }).setThr t { th with pc := .fMgrUnlock }
-  | .fMgrUnlock => ({ s with mgr := none }).setThr t th.doReturn
+  | .fMgrLock =>
+    let th := s.thr t; let T := th.tx; let tx := s.txs T; let a := th.acc
+    ({ s with mgr := some t }).setThr t { th with pc := .fDelete }
+  | .fDelete =>
+    let th := s.thr t; let T := th.tx; let tx := s.txs T; let a := th.acc
+    ({ s with map := upd s.map a.name none }).setThr t { th with pc := .fMgrUnlock }
+  | .fMgrUnlock =>
+    let th := s.thr t; let T := th.tx; let tx := s.txs T; let a := th.acc
+    ({ s with mgr := none }).setThr t th.doReturn
   -- new cache
   | .nCreate =>
+    let th := s.thr t; let T := th.tx; let tx := s.txs T; let a := th.acc
     if a.crOk then
       let (s, o) := s.alloc a.name
       s.setThr t { th with use := o, existing := o, pc := .nStore }
     else (s.setTx T { tx with failed := true }).setThr t { th with pc := .nFailMgrUnlock }
   | .nFailMgrUnlock =>
+    let th := s.thr t; let T := th.tx; let tx := s.txs T; let a := th.acc
     ({ s with mgr := none }).setThr t
       (if s.v.txFirst && !a.ro then { th with pc := .nFailTxUnlock } else th.doReturn)
-  | .nFailTxUnlock => (s.setTx T { tx with mu := none }).setThr t th.doReturn
+  | .nFailTxUnlock =>
+    let th := s.thr t; let T := th.tx; let tx := s.txs T; let a := th.acc
+    (s.setTx T { tx with mu := none }).setThr t th.doReturn
   | .nStore =>
+    let th := s.thr t; let T := th.tx; let tx := s.txs T; let a := th.acc
     let s := if s.maxSize ≠ 0 then
         ({ s with map := upd s.map a.name (some th.use) }).setObj th.use { s.objs th.use with shared := true }
       else s
     s.setThr t { th with defers := if s.maxSize ≠ 0 then .prune :: th.defers else th.defers,
                          pc := if a.ro then .nRLock else .nObjLock }
   | .nRLock =>
+    let th := s.thr t; let T := th.tx; let tx := s.txs T; let a := th.acc
     let ob := s.objs th.use
     (s.setObj th.use { ob with readers := t :: ob.readers }).setThr t
       { th with defers := .runlock th.use :: th.defers, pc := .nMgrUnlock }
   | .nObjLock =>
+    let th := s.thr t; let T := th.tx; let tx := s.txs T; let a := th.acc
     (s.setObj th.use { s.objs th.use with writer := some T }).setThr t
       { th with pc := if s.v.txFirst then .nRegister else .nTxLock }
-  | .nTxLock => (s.setTx T { tx with mu := some t }).setThr t { th with pc := .nRegister }
+  | .nTxLock =>
+    let th := s.thr t; let T := th.tx; let tx := s.txs T; let a := th.acc
+    (s.setTx T { tx with mu := some t }).setThr t { th with pc := .nRegister }
   | .nRegister =>
+    let th := s.thr t; let T := th.tx; let tx := s.txs T; let a := th.acc
     -- `t.writtenCaches[name] = s` OVERWRITES an entry the transaction may already have under this name
     -- (its cache was evicted meanwhile): the old object stays write-locked for ever (ghost `orphan`)
     let s := match aget tx.written a.name with
       | some old => s.setObj old { s.objs old with orphan := true }
       | none => s
     (s.setTx T { tx with written := aput tx.written a.name th.use }).setThr t { th with pc := .nTxUnlock }
-  | .nTxUnlock => (s.setTx T { tx with mu := none }).setThr t { th with pc := .nMgrUnlock }
-  | .nMgrUnlock => ({ s with mgr := none }).setThr t { th with pc := .callF }
+  | .nTxUnlock =>
+    let th := s.thr t; let T := th.tx; let tx := s.txs T; let a := th.acc
+    (s.setTx T { tx with mu := none }).setThr t { th with pc := .nMgrUnlock }
+  | .nMgrUnlock =>
+    let th := s.thr t; let T := th.tx; let tx := s.txs T; let a := th.acc
+    ({ s with mgr := none }).setThr t { th with pc := .callF }
   -- deferred calls
-  | .pEnter => if s.maxSize = -1 then s.setThr t th.popReturn else s.setThr t { th with pc := .pMgrLock }
-  | .pMgrLock => ({ s with mgr := some t }).setThr t { th with pc := .pBody }
+  | .pEnter =>
+    let th := s.thr t; let T := th.tx; let tx := s.txs T; let a := th.acc
+    if s.maxSize = -1 then s.setThr t th.popReturn else s.setThr t { th with pc := .pMgrLock }
+  | .pMgrLock =>
+    let th := s.thr t; let T := th.tx; let tx := s.txs T; let a := th.acc
+    ({ s with mgr := some t }).setThr t { th with pc := .pBody }
   | .pBody =>
+    let th := s.thr t; let T := th.tx; let tx := s.txs T; let a := th.acc
     ({ s with map := if s.maxSize = 0 then fun _ => none
                      else fun n => if c.prune.contains n then none else s.map n }).setThr t
       { th with pc := .pMgrUnlock }
-  | .pMgrUnlock => ({ s with mgr := none }).setThr t th.popReturn
+  | .pMgrUnlock =>
+    let th := s.thr t; let T := th.tx; let tx := s.txs T; let a := th.acc
+    ({ s with mgr := none }).setThr t th.popReturn
   | .dRUnlock =>
+    let th := s.thr t; let T := th.tx; let tx := s.txs T; let a := th.acc
     match th.defers with
     | .runlock o :: _ =>
       (s.setObj o { s.objs o with readers := (s.objs o).readers.erase t }).setThr t th.popReturn
     | _ => s
   -- Commit
-  | .cWait => ({ s with dbw := if s.dbw = some T then none else s.dbw }).setThr t { th with pc := .cTxLock }
-  | .cTxLock => (s.setTx T { tx with mu := some t }).setThr t { th with pc := .cCheckEmpty }
-  | .cCheckEmpty => s.setThr t { th with pc := if tx.written.isEmpty then .cTxUnlock else .cMgrLock }
-  | .cMgrLock => ({ s with mgr := some t }).setThr t { th with pc := .cLoop }
-  | .cLoop => s.setThr t { th with remaining := tx.written, pc := .cEntry }
+  | .cWait =>
+    let th := s.thr t; let T := th.tx; let tx := s.txs T; let a := th.acc
+    ({ s with dbw := if s.dbw = some T then none else s.dbw }).setThr t { th with pc := .cTxLock }
+  | .cTxLock =>
+    let th := s.thr t; let T := th.tx; let tx := s.txs T; let a := th.acc
+    (s.setTx T { tx with mu := some t }).setThr t { th with pc := .cCheckEmpty }
+  | .cCheckEmpty =>
+    let th := s.thr t; let T := th.tx; let tx := s.txs T; let a := th.acc
+    s.setThr t { th with pc := if tx.written.isEmpty then .cTxUnlock else .cMgrLock }
+  | .cMgrLock =>
+    let th := s.thr t; let T := th.tx; let tx := s.txs T; let a := th.acc
+    ({ s with mgr := some t }).setThr t { th with pc := .cLoop }
+  | .cLoop =>
+    let th := s.thr t; let T := th.tx; let tx := s.txs T; let a := th.acc
+    s.setThr t { th with remaining := tx.written, pc := .cEntry }
   | .cEntry =>
+    let th := s.thr t; let T := th.tx; let tx := s.txs T; let a := th.acc
     match th.remaining with
     | [] => s.setThr t { th with pc := .cMgrUnlock }
     | e :: _ =>
@@ -334,9 +398,18 @@ def step (s : St) (t : Tid) (c : Choice) : St :=
                             scrapped := ob.scrapped || bad,
                             dirty := if bad then some T else ob.dirty }).setThr t
         { th with remaining := th.remaining.eraseIdx k }
-  | .cMgrUnlock => ({ s with mgr := none }).setThr t { th with pc := .cTxUnlock }
-  | .cTxUnlock => (s.setTx T { tx with mu := none }).setThr t { th with pc := .cDone }
-  | .cDone => s
+  | .cMgrUnlock =>
+    let th := s.thr t; let T := th.tx; let tx := s.txs T; let a := th.acc
+    ({ s with mgr := none }).setThr t { th with pc := .cTxUnlock }
+  | .cTxUnlock =>
+    let th := s.thr t; let T := th.tx; let tx := s.txs T; let a := th.acc
+    (s.setTx T { tx with mu := none }).setThr t { th with pc := .cDone }
+  | .cDone =>
+    let th := s.thr t; let T := th.tx; let tx := s.txs T; let a := th.acc
+    s
+
+
+def step (s : St) (t : Tid) (c : Choice) : St := stepAt s t c (s.thr t).pc
 
 /-- `Release(name)` / any eviction: map entries vanish at an arbitrary moment -/
 def evict (s : St) (ns : List Name) : St :=
@@ -349,7 +422,7 @@ structure Init (s : St) : Prop where
   nObj : s.nObj = 0
   txs : ∀ T, (s.txs T).written = [] ∧ (s.txs T).mu = none ∧ (s.txs T).failed = false
   thrW : ∀ i, (s.thr (.w i)).pc = .idle ∧ (s.thr (.w i)).defers = [] ∧ (i ≥ s.n → (s.thr (.w i)).todo = [])
-  thrC : ∀ T, (s.thr (.c T)).tx = T ∧ ((s.thr (.c T)).pc = .cWait ∨ (s.thr (.c T)).pc = .cDone)
+  thrC : ∀ T, (s.thr (.c T)).tx = T ∧ (s.thr (.c T)).pc = .cWait ∧ (s.thr (.c T)).defers = []
   dbw : s.dbw = none
 
 inductive Reachable (s0 : St) : St → Prop where
@@ -358,6 +431,29 @@ inductive Reachable (s0 : St) : St → Prop where
   | evict {s : St} (ns : List Name) : Reachable s0 s → Reachable s0 (evict s ns)
 
 def St.unfinished (s : St) (t : Tid) : Bool :=
-  (match t with | .w i => decide (i < s.n) | .c T => (s.thr (.c T)).tx == T) && !(s.thr t).done
+  (match t with | .w i => decide (i < s.n) | .c T => decide (T < s.nTx)) && !(s.thr t).done
+
+/-- the threads that exist: workers `w 0 … w (n-1)`, committers `c 0 … c (nTx-1)` -/
+def St.tids (s : St) : List Tid := (List.range s.n).map Tid.w ++ (List.range s.nTx).map Tid.c
+
+/-- no thread can take a step although some thread has not finished -/
+def Deadlocked (s : St) : Prop := (∃ t, s.unfinished t = true) ∧ ∀ t, enabled s t = false
+
+def St.deadlockedB (s : St) : Bool := s.tids.any s.unfinished && s.tids.all fun t => !enabled s t
+
+/-- run a schedule (default choices), refusing steps that are not enabled -/
+def runChecked (s : St) : List Tid → Option St
+  | [] => some s
+  | t :: r => if enabled s t then runChecked (step s t {}) r else none
+
+/-- an initial state from a list of worker programs `(transaction, accesses)` -/
+def mkInit (progs : List (TxId × List Access)) (commitFail : List Bool) (maxSize : Int) (db : Bool) (v : Variant) : St :=
+  { n := progs.length, nTx := commitFail.length, maxSize := maxSize, dbLock := db, v := v,
+    txs := fun T => { commitFail := commitFail.getD T false },
+    thr := fun t => match t with
+      | .w i => match progs[i]? with
+        | some (T, p) => { tx := T, todo := p }
+        | none => {}
+      | .c T => { tx := T, pc := .cWait } }
 
 end Sema.C11
